@@ -40,6 +40,19 @@ CLAIMED = {
    note=("partial: InferWitnessed is stated and evaluated, not proved; trusted: Lean kernel + standard axioms, hand-written model tied "
          "by correspondence (infer + witness oracle pair incl. widened negative controls)"),
    technique="Lean 4 proof over a hand-written model + executable formal witness oracle + differential correspondence check"),
+ "C07": dict(
+   text=("Lean 4 theorems over a model of the GenericTypeRewriter traversal and the five shipped overrides: every rewriter alone, the "
+         "default chain and any chain without RemoveEmptyContainers admit every (tight) inhabitant of the input (never_narrows, "
+         "default_chain_never_narrows, chain_never_narrows_usual), in particular every observed value of every inferred type "
+         "(default_chain_on_inferred, composing with C05's tight-reading theorem); each rewriter leaves a type unchanged unless its documented "
+         "trigger occurs (unchanged_without_trigger); well-formedness is preserved; rewriting is total by construction. Tied to /repo by "
+         "differential testing of every shipped rewriter, the default chain and ordered pairs on an exhaustive small-scope + random type "
+         "grammar and on inferred types; narrowing, crashes and untriggered changes are also checked directly on the implementation."),
+   ref="DESIGN.md section 4 C07",
+   note=("trusted: Lean kernel + standard axioms; hand-written model tied by correspondence; class-table hypotheses (reflexive, transitive, "
+         "base-is-superclass) are decided for the concrete fixture table on every run; object identity (`is`) of typing objects is modelled "
+         "as strict structural equality (typing's subscription cache)"),
+   technique="Lean 4 proof (mutual structural induction over the rewriter traversal) + differential correspondence check"),
 }
 
 NOT_YET = "check not built yet (build in progress; see DESIGN.md section 10)"
